@@ -116,7 +116,46 @@ func (q *queryStmtParser) validation() error {
 	if !q.allFields && len(q.selectItems) == 0 {
 		return fmt.Errorf("select fields cannbe be empty")
 	}
+	// a duration literal or a star is no operand: `f+1h`, `(*)` leave a node without child,
+	// such a statement cannot be marshalled for the other nodes.
+	exprs := append(append([]stmt.Expr{}, q.selectItems...), q.orderBy...)
+	if q.condition != nil {
+		exprs = append(exprs, q.condition)
+	}
+	if q.havingStmt != nil {
+		exprs = append(exprs, q.havingStmt)
+	}
+	for _, expr := range exprs {
+		if !isCompleteExpr(expr) {
+			return fmt.Errorf("expression is missing an operand")
+		}
+	}
 	return nil
+}
+
+// isCompleteExpr checks that no node of the expression tree is missing a child.
+func isCompleteExpr(expr stmt.Expr) bool {
+	switch e := expr.(type) {
+	case nil:
+		return false
+	case *stmt.SelectItem:
+		return isCompleteExpr(e.Expr)
+	case *stmt.OrderByExpr:
+		return isCompleteExpr(e.Expr)
+	case *stmt.ParenExpr:
+		return isCompleteExpr(e.Expr)
+	case *stmt.NotExpr:
+		return isCompleteExpr(e.Expr)
+	case *stmt.BinaryExpr:
+		return isCompleteExpr(e.Left) && isCompleteExpr(e.Right)
+	case *stmt.CallExpr:
+		for _, param := range e.Params {
+			if !isCompleteExpr(param) {
+				return false
+			}
+		}
+	}
+	return true
 }
 
 // resetExprStack resets expr stack for next parse fragment.
